@@ -202,6 +202,23 @@ def parseArg (s : String) : Option Arg :=
     | _ => none
   else none
 
+/-- call-syntax arguments with the clipping forms `l<k>` (`multi::_ < k`) and `g<k>` (`k <= multi::_`): an
+    `intersecting_range` is intersected with the extension of the dimension it addresses (`paren_aux_(intersecting_range, …)`
+    = `paren_aux_(intersection(extension(), inr), …)`, array_ref.hpp) — the j-th argument addresses the j-th dimension of the
+    ORIGINAL view, so the clip is resolved to the range argument it stands for -/
+def parseArgsIn (exts : List Ext) : List String → Option (List Arg)
+  | [] => some []
+  | s :: rest =>
+    let e := exts.headD ⟨0, 0⟩
+    let lim : Int := 9223372036854775807
+    let a : Option Arg :=
+      if s.startsWith "l" then (s.drop 1).toString.toInt?.map fun k => let x := e.inter ⟨-lim - 1, k⟩; Arg.rng x.first x.last
+      else if s.startsWith "g" then (s.drop 1).toString.toInt?.map fun k => let x := e.inter ⟨k, lim⟩; Arg.rng x.first x.last
+      else parseArg s
+    match a, parseArgsIn exts.tail rest with
+    | some a, some as => some (a :: as)
+    | _, _ => none
+
 def parseExts : List Int → List Ext
   | f :: l :: rest => ⟨f, l⟩ :: parseExts rest
   | _ => []
@@ -223,10 +240,12 @@ def step (st : St) (line : String) : St × Option String :=
       ({ st with views := st.views.set! d ((st.views[s]!).stenciled (parseExts xs)) }, none)
     | _, _, _ => (st, some "bad-op")
   | "v" :: dst :: src :: "call" :: rest =>
-    match dst.toNat?, src.toNat?, rest.mapM parseArg with
-    | some d, some s, some as =>
-      ({ st with views := st.views.set! d ((st.views[s]!).paren as) }, none)
-    | _, _, _ => (st, some "bad-op")
+    match dst.toNat?, src.toNat? with
+    | some d, some s =>
+      match parseArgsIn (st.views[s]!).exts rest with
+      | some as => ({ st with views := st.views.set! d ((st.views[s]!).paren as) }, none)
+      | none => (st, some "bad-op")
+    | _, _ => (st, some "bad-op")
   | "v" :: dst :: src :: op :: rest =>
     match dst.toNat?, src.toNat?, parseInts rest with
     | some d, some s, some a =>
